@@ -70,6 +70,37 @@ class PrTarget(object):
         if op == 0x5F and len(cdb) == 10:
             sa, scope, typ = cdb[1] & 0x1F, cdb[2] >> 4, cdb[2] & 0x0F
             plen = struct.unpack(">I", cdb[5:9])[0]
+            if sa == 7:
+                # REGISTER AND MOVE parameter list (SPC-4 table 200): keys, byte 17 UNREG / APTPL, RELATIVE TARGET PORT
+                # IDENTIFIER 18-19, TRANSPORTID PARAMETER DATA LENGTH 20-23, then the TransportID (iSCSI: format / protocol,
+                # ADDITIONAL LENGTH 2-3, null-terminated name padded to a multiple of four)
+                data = bytes(dataout)
+                if plen != len(data) or len(data) < 24 + 8:
+                    self.odd.append("REGISTER AND MOVE list length %d, data-out %d" % (plen, len(data)))
+                    return self.illegal(0x1A, 0x00)
+                key, sakey = struct.unpack(">QQ", data[:16])
+                unreg, rtpi, tlen = (data[17] >> 1) & 1, struct.unpack(">H", data[18:20])[0], struct.unpack(">I", data[20:24])[0]
+                tid = data[24:]
+                if data[16] or data[17] & 0xFC or cdb[1] & 0xE0 or cdb[3] or cdb[4] or scope:
+                    self.odd.append("reserved bits set: cdb %s list %s" % (list(cdb), list(data[:24])))
+                if tlen != len(tid) or tlen % 4 or tid[0] != 0x05 or tid[1] or struct.unpack(">H", tid[2:4])[0] != len(tid) - 4 \
+                        or not tid.endswith(b"\0"):
+                    self.odd.append("TransportID %s (length field %d)" % (list(tid), tlen))
+                    return self.illegal(0x26, 0x00)
+                name = tid[4:].rstrip(b"\0").decode("ascii", "replace")
+                j = {"iqn.i1": 1, "iqn.i2": 2}.get(name, 0)
+                self.last = (sa, [typ, key, sakey, unreg, j, rtpi])
+                mine = self.reg[i]
+                if mine == 0 or key != mine or self.holder != i:
+                    return 0x18, None
+                if sakey == 0 or j == i or j == 0:
+                    return self.illegal(0x26, 0x00)
+                self.reg[j] = sakey
+                self.holder = j
+                if unreg:
+                    self.reg[i] = 0
+                self.gen += 1
+                return 0, None
             if plen != len(dataout) or plen != 24:
                 self.odd.append("parameter list length %d, data-out %d" % (plen, len(dataout)))
                 return self.illegal(0x1A, 0x00)
@@ -179,7 +210,7 @@ def reservations(chk, mini=False):
         if not r.ok:
             raise tlc.TLCFailure("Reservations.tla violated %s\n%s" % (r.violated, r.counterexample[:1500]))
         if cfg.startswith("MC_Reservations_"):
-            for a in ("Register", "RegisterIgnore", "Reserve", "Release", "Clear", "Preempt", "ReadKeys", "ReadReservation",
+            for a in ("Register", "RegisterIgnore", "Reserve", "Release", "Clear", "Preempt", "RegisterMove", "ReadKeys", "ReadReservation",
                       "FullStatus", "Capabilities", "Write", "Read"):
                 if r.coverage.get(a, (0, 0))[0] == 0:
                     raise tlc.TLCFailure("Reservations.tla vacuous: %s never taken" % a)
@@ -187,7 +218,7 @@ def reservations(chk, mini=False):
         b = [v for t, v in r.prints if t == "RESERVATIONS"]
         if chk.quick and len(b) > 600:
             # every behaviour in the thorough tier; here a sample, those in which a reservation changes hands first
-            pre = [x for x in b if any(s_["act"] == "preempt" and s_["out"] == "ok" for s_ in x["steps"])][:200]
+            pre = [x for x in b if any(s_["act"] in ("preempt", "regmove") and s_["out"] == "ok" for s_ in x["steps"])][:250]
             b = pre + random.Random(chk.seed).sample(b, 600 - len(pre))
         beh += b
         r.prints = []
@@ -254,6 +285,11 @@ def reservations(chk, mini=False):
                         want_last = (SA[a], [g[2], KEY[g[0]], KEY[g[1]]])
                         f.persistentreserveout(OUT.PREEMPT, scope=0, pr_type=g[2], reservation_key=KEY[g[0]],
                                                service_action_reservation_key=KEY[g[1]])
+                    elif a == "regmove":
+                        want_last = (7, [None, KEY[g[0]], KEY[g[1]], g[2], g[3], 1])
+                        f.persistentreserveout(OUT.REGISTER_AND_MOVE, reservation_key=KEY[g[0]], service_action_reservation_key=KEY[g[1]],
+                                               unreg=g[2], relative_target_port_id=1,
+                                               transport_id={"protocol_id": 5, "iscsi_name": "iqn.i%d" % g[3]})
                     elif a == "readkeys":
                         want_last = ("in", [0])
                         r_ = f.persistentreservein(IN.READ_KEYS).result
@@ -303,7 +339,7 @@ def reservations(chk, mini=False):
                 acts[a] = acts.get(a, 0) + 1
                 st = tgt.state()
                 got_last = tgt.last
-                if got_last is not None and want_last is not None and want_last[1] and want_last[1][0] is None and len(got_last[1]) == 3:
+                if got_last is not None and want_last is not None and want_last[1] and want_last[1][0] is None and len(got_last[1]) >= 3:
                     got_last = (got_last[0], [None] + list(got_last[1][1:]))       # TYPE is not used by this service action
                 bad = None
                 if sent != 1:
